@@ -25,9 +25,10 @@ RULE = ("E2 cell = (worker loop, max_requests 0..6, jitter 0..3, requests per co
         "size 1-4, number of workers leaving at the same instant, instant on / off the master's wake-up, placement of each exit: "
         "while the master sleeps or before the k-th source line of its pass over the worker table); live cell = (worker class, "
         "workers 1-2, max_requests 2-5, jitter 0-2, load shape sequential / 8 concurrent clients, keep-alive 0 / 2, bind tcp / unix "
-        "/ both, timeout 30 / 0; or: a 4 s request in flight at the limit); E5 cell = seeded history of the scripted gthread loop, every "
-        "fifth one with the limit reached while the loop polls and a late request on an earlier connection; distinct = cell tuple; "
-        "every cell is non-trivial")
+        "/ both, timeout 30 / 0; or: a 4 s request in flight at the limit, timeout 30; a 10 s one, timeout 4; or: gthread, threads 1-3, "
+        "max_requests threads+1..+3, 3-5 persistent HTTP/1.1 clients whose requests wait for a thread when the limit is reached); "
+        "E5 cell = seeded history of the scripted gthread loop, every fifth one with the limit reached while the loop polls and a "
+        "late request on an earlier connection; distinct = cell tuple; every cell is non-trivial")
 
 
 # ---- E2 counting rule ------------------------------------------------------------------------------
@@ -555,10 +556,19 @@ def inflight_scenario(run, e4, sc):
     v = []
     info = {}
     wc, nap = sc["class"], sc.get("nap", 4.0)
-    settings = {"max_requests": 2, "keepalive": 2, "graceful_timeout": 12, "timeout": 30}
+    # `timeout` below the duration of the request ("beyond"): in normal operation these worker classes serve such a request (the
+    # heartbeat is kept up beside it), so it must also be answered in full when it is in flight while the worker retires
+    wtimeout, graceful = sc.get("timeout", 30), sc.get("graceful", 12)
+    beyond = wtimeout < nap
+    # the arbiter gives up on a silent worker `timeout` s after its last heartbeat (heartbeats and the arbiter's look at them are
+    # both 1 s apart): the request has to be in flight for longer than that after the limit for the cell to mean anything
+    latest_limit = (nap - wtimeout - 3.5) if beyond else (nap - 2.5)
+    settings = {"max_requests": 2, "keepalive": 2, "graceful_timeout": graceful, "timeout": wtimeout}
     if wc == "gthread":
         settings["threads"] = 4
     srv = e4.Server("c18", worker_class=wc, workers=1, settings=settings, bind=sc.get("bind", "tcp"))
+    probe = e4.LagProbe()
+    probe.start()
     try:
         srv.start()
         w0 = srv.wait_workers(1, 25)
@@ -580,7 +590,7 @@ def inflight_scenario(run, e4, sc):
                           "-> %s" % r2["outcome"]))
                 return v, None, info
             return v, "the second request was not answered by the worker that holds the first", info
-        if time.monotonic() - t0 > nap - 2.5:
+        if time.monotonic() - t0 > latest_limit:
             t.join(nap + 15)
             return v, "scheduling lag: the limit was reached only %.1f s after the long request began" % (time.monotonic() - t0), info
         t.join(nap + 15)
@@ -588,14 +598,26 @@ def inflight_scenario(run, e4, sc):
         info["in_flight_request"] = r1 and r1["outcome"]
         info["seconds"] = r1 and round(r1["t_done"] - r1["t_call"], 2)
         if not r1 or r1["outcome"] != "ok" or b"pid=%d " % served not in e4.body_of(r1["data"]):
-            v.append(("in-flight-request-lost-at-recycle/long-request/" + wc,
-                      "%s, max_requests=2, graceful_timeout=12: a request that takes %.1f s was in flight (application entered, pid %d) "
-                      "when a second request reached the limit; the second was answered, the first -> %s after %.1f s, %d bytes (%r); "
-                      "worker alive: %s" % (wc, nap, served, r1 and r1["outcome"], (r1["t_done"] - r1["t_call"]) if r1 else -1,
-                                            len(r1["data"]) if r1 else 0, r1 and r1["data"][:40], e4.alive(served))))
+            if beyond:
+                info["worker_timeout_logged"] = "WORKER TIMEOUT" in srv.error_log()
+                lag = probe.max_lag(since=t0)
+                if lag > 0.5:
+                    # a worker held up for seconds by the machine misses its heartbeat too: not the worker's doing
+                    return v, "scheduling lag of %.1f s while a worker with timeout=%s drained" % (lag, wtimeout), info
+            v.append(("in-flight-request-lost-at-recycle/" + ("longer-than-worker-timeout/" if beyond else "long-request/") + wc,
+                      "%s, max_requests=2, graceful_timeout=%s, timeout=%s: a request that takes %.1f s was in flight (application "
+                      "entered, pid %d) when a second request reached the limit; the second was answered, the first -> %s after %.1f s, "
+                      "%d bytes (%r); worker alive: %s%s" % (
+                          wc, graceful, wtimeout, nap, served, r1 and r1["outcome"], (r1["t_done"] - r1["t_call"]) if r1 else -1,
+                          len(r1["data"]) if r1 else 0, r1 and r1["data"][:40], e4.alive(served),
+                          "; the master logged WORKER TIMEOUT: %s (a request of this length is served by a worker that is not "
+                          "retiring)" % info["worker_timeout_logged"] if beyond else "")))
             return v, None, info
-        run.count("live_long_in_flight_request_answered")
-        run.count("live_long_in_flight_request_answered/" + wc)
+        if beyond:
+            run.count("live_in_flight_request_beyond_worker_timeout_answered/" + wc)
+        else:
+            run.count("live_long_in_flight_request_answered")
+            run.count("live_long_in_flight_request_answered/" + wc)
         # the worker then exits and is replaced
         t1 = time.monotonic()
         nxt = None
@@ -618,6 +640,146 @@ def inflight_scenario(run, e4, sc):
             run.count("live_replacement_answers_after_long_request")
         return v, None, info
     finally:
+        probe.stop_flag = True
+        srv.cleanup()
+
+
+def announces_keepalive(data):
+    """The response head tells an HTTP/1.1 client that the connection stays open: HTTP/1.1 and no `close` among its Connection
+    options."""
+    head = data.split(b"\r\n\r\n", 1)[0].decode("latin-1").split("\r\n")
+    if not head[0].startswith("HTTP/1.1 "):
+        return False
+    for line in head[1:]:
+        name, _, value = line.partition(":")
+        if name.strip().lower() == "connection" and "close" in [x.strip().lower() for x in value.split(",")]:
+            return False
+    return True
+
+
+def queued_behind_limit_scenario(run, e4, sc):
+    """Persistent HTTP/1.1 clients (a proxy with upstream keep-alive, a session object: the connection is used again whenever the
+    last response allowed it) whose requests WAIT IN THE WORKER - more connections than threads - while the limit is reached:
+    every thread is held by a request, then 1 + `queued` connections send theirs; the first of them is request number max_requests,
+    the others are handled after it by the worker that is retiring.  All of them are answered in full, and a client that is told its
+    connection stays open finds it open: its next request on it is answered.  (A response that says `Connection: close` sends the
+    client to a new connection - nothing is lost.)  Nothing here is judged by the clock."""
+    v = []
+    info = {}
+    wc, T, m, nq = sc["class"], sc["threads"], sc["max_requests"], 1 + sc["queued"]
+    settings = {"max_requests": m, "max_requests_jitter": 0, "keepalive": sc.get("keepalive", 5), "graceful_timeout": 15, "timeout": 30,
+                "threads": T}
+    srv = e4.Server("c18", worker_class=wc, workers=1, settings=settings, bind=sc.get("bind", "tcp"))
+    socks = []
+    try:
+        srv.start()
+        w0 = srv.wait_workers(1, 25)
+        if not w0 or not srv.wait_listening(5):
+            return v, "server did not boot: %s" % srv.stderr()[-300:], info
+        old = w0[0]
+        # requests 1 .. m-1: some answered one after the other, the last T of them held inside the application (one per thread)
+        for i in range(m - 1 - T):
+            r = e4.request(srv.addr, "/pid", timeout=10)
+            if r["outcome"] != "ok" or b"pid=%d " % old not in e4.body_of(r["data"]):
+                return v, "warm-up request %d -> %s" % (i + 1, r["outcome"]), info
+        res = {}
+        holders = [threading.Thread(target=lambda i=i: res.update({("g", i): e4.request(srv.addr, "/gate/g%d" % i, timeout=60)}),
+                                    daemon=True) for i in range(T)]
+        for t in holders:
+            t.start()
+        for i in range(T):
+            if srv.wait_phase("entered g%d" % i, 15) != old:
+                for j in range(T):
+                    srv.release("g%d" % j)
+                return v, "the request that is to hold thread %d did not reach the application of the first worker" % i, info
+        # the persistent clients: their requests are numbers m, m+1, ... of this worker and wait for a thread
+        raw = b"GET /pid HTTP/1.1\r\nHost: t\r\n\r\n"
+        for i in range(nq):
+            try:
+                c = e4.connect(srv.addr, 5)
+                c.sendall(raw)
+            except OSError as e:
+                for j in range(T):
+                    srv.release("g%d" % j)
+                return v, "client %d could not connect and send while every thread was busy: %r" % (i, e), info
+            socks.append(c)
+            time.sleep(0.03)
+        time.sleep(sc.get("settle", 0.6))
+
+        def persistent_client(i):
+            rec = {"first": e4.request(srv.addr, raw=b"", sock=socks[i], close=False, timeout=40)}
+            res[("q", i)] = rec
+            if rec["first"]["outcome"] == "ok":
+                rec["keepalive"] = announces_keepalive(rec["first"]["data"])
+                if rec["keepalive"]:
+                    # allowed to use the connection again - and does, at once
+                    rec["next"] = e4.request(srv.addr, raw=raw, sock=socks[i], close=False, timeout=20)
+
+        clients = [threading.Thread(target=persistent_client, args=(i,), daemon=True) for i in range(nq)]
+        for t in clients:
+            t.start()
+        for j in range(T):
+            srv.release("g%d" % j)
+        for t in holders + clients:
+            t.join(70)
+        held = [res.get(("g", i)) for i in range(T)]
+        if any(r is None or r["outcome"] != "ok" for r in held):
+            v.append(("client-request-lost-at-recycle/" + wc, "%s, threads=%d, max_requests=%d: the requests that held the threads while "
+                      "others queued up (numbers below the limit) -> %s" % (wc, T, m, [r and r["outcome"] for r in held])))
+            return v, None, info
+        recs = [res.get(("q", i)) for i in range(nq)]
+        if any(r is None for r in recs):
+            return v, "a client thread did not finish", info
+        firsts = [r["first"]["outcome"] for r in recs]
+        by_old = [r for r in recs if r["first"]["outcome"] == "ok" and b"pid=%d " % old in e4.body_of(r["first"]["data"])]
+        info.update({"first_requests": firsts, "answered_by_retiring_worker": len(by_old),
+                     "announced": ["keep-alive" if r.get("keepalive") else "close" for r in by_old],
+                     "next_on_same_connection": [r["next"]["outcome"] for r in by_old if "next" in r]})
+        lost = [r["first"] for r in recs if r["first"]["outcome"] != "ok"]
+        if lost:
+            # sent while the worker was below its limit, and not answered
+            zero = all(not r["data"] and r["outcome"] in ("empty", "reset") for r in lost)
+            mech = "gthread-drops-accepted-connections-at-recycle" if (wc == "gthread" and zero) else "queued-request-lost-at-recycle/" + wc
+            v.append((mech, "%s, threads=%d, max_requests=%d: %d connections sent a request each while all threads were busy with "
+                      "requests %d..%d; after those were let go: %s" % (wc, T, m, nq, m - T, m - 1, firsts)))
+        for r in by_old:
+            if r.get("keepalive") and r["next"]["outcome"] != "ok":
+                v.append(("keepalive-connection-dropped-at-recycle/queued-behind-limit",
+                          "%s, threads=%d, max_requests=%d, keepalive=%s: %d requests waited in the worker while every thread was busy; they "
+                          "are request numbers %d and up of that worker (pid in every body), handled after the threads were let go. "
+                          "The responses announced %s; the client whose response said keep-alive sent its next request on that "
+                          "connection at once -> %s (%r): the retiring worker had closed a connection it had just declared open" % (
+                              wc, T, m, settings["keepalive"], nq, m, info["announced"], r["next"]["outcome"], r["next"]["err"])))
+                break
+        if v:
+            return v, None, info
+        if len(by_old) < 2:
+            return v, "fewer than two of the waiting requests were answered by the first worker (%d)" % len(by_old), info
+        # the worker did retire (so the limit was reached by these requests)
+        t1 = time.monotonic()
+        gone = False
+        while time.monotonic() - t1 < 30:
+            srv.reap()
+            if not e4.alive(old):
+                gone = True
+                break
+            time.sleep(0.05)
+        if not gone:
+            return v, "the first worker is still running 30 s after request number %d was answered" % (m + nq - 1), info
+        run.count("live_queued_behind_limit_checks")
+        run.count("live_queued_behind_limit_checks/" + wc)
+        run.count("live_queued_requests_answered_by_retiring_worker", len(by_old))
+        run.count("live_queued_responses_announcing_close", sum(1 for r in by_old if not r.get("keepalive")))
+        reused = sum(1 for r in by_old if r.get("keepalive"))
+        if reused:
+            run.count("live_queued_connections_reused_and_answered", reused)
+        return v, None, info
+    finally:
+        for c in socks:
+            try:
+                c.close()
+            except OSError:
+                pass
         srv.cleanup()
 
 
@@ -656,6 +818,18 @@ def live_scenarios(tier, seed):
     for wc in ("gevent", "eventlet", "gthread"):
         out.append({"class": wc, "kind": "in-flight-long", "workers": 1, "max_requests": 2, "jitter": 0, "concurrency": 2, "requests": 3,
                     "nap": 4.0, "bind": rng2.choice(["tcp", "unix"]) if tier != "quick" else "tcp"})
+    # ... and needs longer than `timeout`: every one of these classes serves such a request in normal operation
+    for wc in ("gevent", "eventlet", "gthread"):
+        out.append({"class": wc, "kind": "in-flight-long", "workers": 1, "max_requests": 2, "jitter": 0, "concurrency": 2, "requests": 3,
+                    "nap": 10.0, "timeout": 4, "graceful": 25, "bind": rng2.choice(["tcp", "unix"]) if tier != "quick" else "tcp"})
+    # persistent clients whose requests wait in the threaded worker (more connections than threads) while the limit is reached
+    rng3 = rng_for(seed, "c18-live-queued")
+    for rep in range(1 if tier == "quick" else 6):
+        T = rng3.choice([1, 1, 2, 3])
+        out.append({"class": "gthread", "kind": "queued-behind-limit", "workers": 1, "threads": T, "max_requests": T + rng3.randint(1, 3),
+                    "jitter": 0, "queued": rng3.randint(2, 4), "keepalive": rng3.choice([2, 5, 30]), "bind": rng3.choice(["tcp", "unix"]),
+                    "requests": 8})
+        out[-1]["concurrency"] = T + 1 + out[-1]["queued"]
     # timeout = 0 ("workers are never timed out"): recycled workers are replaced all the same
     classes = ["sync", "gthread", "gevent", "eventlet"]
     for wc in ([classes[seed % 4]] if tier == "quick" else classes):
@@ -663,7 +837,7 @@ def live_scenarios(tier, seed):
                     "requests": 48 if wc in ("gevent", "eventlet") else 24, "timeout": 0, "request_timeout": 5})
     for i, sc in enumerate(out):
         sc["idx"] = i
-        if sc.get("kind") in ("keepalive-reuse", "in-flight-long"):
+        if sc.get("kind") in ("keepalive-reuse", "in-flight-long", "queued-behind-limit"):
             continue
         if sc["class"] in ("gevent", "eventlet") and sc["max_requests"]:
             # these workers look at their own `alive` flag once per second: make the load span several ticks
@@ -730,6 +904,8 @@ def shard(sh):
                 v, reason, info = keepalive_reuse_scenario(run, e4, sc)
             elif sc.get("kind") == "in-flight-long":
                 v, reason, info = inflight_scenario(run, e4, sc)
+            elif sc.get("kind") == "queued-behind-limit":
+                v, reason, info = queued_behind_limit_scenario(run, e4, sc)
             else:
                 v, reason, info = live_scenario(run, e4, sc)
             if reason is None or v:
@@ -790,7 +966,13 @@ def main(tier, seed):
                 "e3_histories_with_timeout_0", "e3_pool_restored_checks_with_timeout_0", "live_recycling_with_timeout_0",
                 # a request that needs seconds, in flight at the limit
                 "live_long_in_flight_request_answered/gevent", "live_long_in_flight_request_answered/eventlet",
-                "live_long_in_flight_request_answered/gthread", "live_replacement_answers_after_long_request")
+                "live_long_in_flight_request_answered/gthread", "live_replacement_answers_after_long_request",
+                # ... that needs longer than `timeout`
+                "live_in_flight_request_beyond_worker_timeout_answered/gevent",
+                "live_in_flight_request_beyond_worker_timeout_answered/eventlet",
+                "live_in_flight_request_beyond_worker_timeout_answered/gthread",
+                # persistent clients whose requests wait in the threaded worker while the limit is reached
+                "live_queued_behind_limit_checks/gthread", "live_queued_requests_answered_by_retiring_worker")
     shards = plan(tier, seed)
     run.assumptions = [
         "concurrent workers may finish the connections already accepted when the limit is hit: bounded by the number of concurrent client connections the harness opens",
@@ -825,7 +1007,8 @@ def replay(path):
         v = list(k.violations) + e5_discards(k)[0]
     else:
         from vlib import e4_live as e4
-        fn = {"keepalive-reuse": keepalive_reuse_scenario, "in-flight-long": inflight_scenario}.get(c["scenario"].get("kind"), live_scenario)
+        fn = {"keepalive-reuse": keepalive_reuse_scenario, "in-flight-long": inflight_scenario,
+              "queued-behind-limit": queued_behind_limit_scenario}.get(c["scenario"].get("kind"), live_scenario)
         v, reason, info = fn(run, e4, c["scenario"])
         print("info:", info, "inconclusive:", reason)
     for mech, s in v:
